@@ -12,7 +12,7 @@ Inductive c14case :=
 | CAgg (q : aquery)                          (* one entity with the whole clause language, through GraphDatabaseService::query: [outcome; probe] *)
 | CDel (p : option pval)                     (* delete { E { $id } } through GraphDatabaseService::delete: [outcome; probe] *)
 | CFrames (info : fstep) (ans qs evs : list fstep)   (* one QUIC connection to a real DiscretEndpoint: [info; answers; queries; events delivered; big allocation; probe] *)
-| CIngest (rights_from mdate : Z)            (* a row with this mdate through add_nodes: [outcome; write probe] *)
+| CIngest (rights_from mdate : Z)            (* a row with this mdate through add_nodes, then compute_daily_log: [outcome; write probe] *)
 | CObs (stream : N).                         (* streams without a model verdict: [panics; probe] *)
 
 (* outcome codes in observations: 0 Ok, 1 Err, 2 a thread / the call panicked, 3 no answer in time *)
@@ -35,7 +35,7 @@ Definition run_C14 (c : c14case) : list Z :=
   | CAgg q => pool_run default_parallelism [aquery_outcome q]
   | CDel p => pool_run default_parallelism [delete_outcome p]
   | CFrames info ans qs evs => connection_obs info ans qs evs ++ [1]
-  | CIngest rf md => pool_run 1 [ingest_outcome rf md]         (* one writer thread *)
+  | CIngest rf md => ingest_obs rf md
   | CObs _ => [0; 1]
   end.
 
@@ -235,7 +235,7 @@ Definition known_C14 (c : c14case) : list Z :=
       | None => [] end
   | CAgg q => flag 5 (search_blank q) ++ flag 8 (value_filter_on_aggregate q)
   | CFrames info _ _ _ => flag 9 (match info with FFrame len _ _ => N.leb alloc_bound len | FShortLen => false end)
-  | CIngest rf md => flag 10 (Z.leb rf md && Z.ltb max_calendar_ms md)
+  | CIngest rf md => flag 10 (Z.leb rf md && Z.leb last_day_start_ms md)
   | _ => []
   end.
 
